@@ -17,4 +17,9 @@ if [ "$1" = "--build-only" ]; then
   echo "build ok"
   exit 0
 fi
-exec "$ROOT/harness/target/release/check" "$@"
+# the library prints warnings with eprintln! on invalid requests (millions of lines during a run): drop them unless asked
+if [ -n "$VERIF_VERBOSE" ]; then
+  exec "$ROOT/harness/target/release/check" "$@"
+else
+  exec "$ROOT/harness/target/release/check" "$@" 2>/dev/null
+fi
